@@ -35,6 +35,8 @@ pub struct RunCtx {
     pub seed: u64,
     pub shards: usize,
     pub start: Instant,
+    /// proptest shrink iterations (lower for checks whose single case is expensive)
+    pub shrink_iters: u32,
 }
 
 #[derive(Default, Clone, Debug)]
@@ -123,6 +125,7 @@ where
             let test = &test;
             let id = ctx.id.clone();
             let seed = ctx.seed;
+            let ctx_shrink = ctx.shrink_iters;
             let sub = sub.to_string();
             handles.push(scope.spawn(move || {
                 crate::util::install_panic_hook();
@@ -134,7 +137,7 @@ where
                     cases: per as u32,
                     failure_persistence: None,
                     rng_seed: RngSeed::Fixed(shard_seed),
-                    max_shrink_iters: 4000,
+                    max_shrink_iters: ctx_shrink,
                     max_global_rejects: 1_000_000,
                     ..Config::default()
                 };
